@@ -3,7 +3,7 @@ usage: try_patch.py <patch.diff> <ID> [<ID> ...] [--runs N] [--seeds 0,1,2] [--t
 Prints, per check and seed, exit code and the VIOLATION lines.  The worktree is removed afterwards."""
 import os, subprocess, sys, tempfile, shutil
 args = sys.argv[1:]
-patch = os.path.abspath(args[0]); ids = [a for a in args[1:] if not a.startswith("--")]
+patch = os.path.abspath(args[0]); ids = [a for a in args[1:] if a.startswith("C") and a[1:].isdigit()]
 def opt(name, default):
     for i, a in enumerate(args):
         if a == name: return args[i + 1]
